@@ -785,6 +785,31 @@ def run_property(prop, tier, seed, jobs_n):
                      search_done=True)
         else:
             r.update(status='undecided', reason='unwinding bound %s exceeded (the code has a loop or recursion this obligation was not written for) and the bounded search found no failing check' % ob.get('unwind', 8))
+    # an obligation that TIMES OUT although it has no loop contract may have met an unbounded loop the code gained (cbmc unwinds
+    # for ever): the bounded search decides whether a user-level check fails within a few iterations; nothing found stays undecided
+    pending_to = []
+    for r in results:
+        if r.get('status') != 'undecided' or not (r.get('reason') or '').startswith('cbmc timeout'):
+            continue
+        u = ctx.units[r['unit']]
+        ob = [o for o in u['obligations'] if o['id'] == r['ob']][0]
+        if ob.get('kind') or u.get('loops') or u.get('loops_by_config'):
+            continue
+        pending_to.append((r, u, ob))
+    if pending_to:
+        with cf.ThreadPoolExecutor(max_workers=jobs_n) as ex:
+            futs = {ex.submit(run_obligation, ctx, u, ob, r['config'], tier, False, True, False, True): (r, ob) for r, u, ob in pending_to}
+            for f in cf.as_completed(futs):
+                r, ob = futs[f]
+                try:
+                    sr = f.result()
+                except Exception as e:
+                    continue
+                user_fail = [p for p in (sr.get('failed_props') or []) if USER_PROP_RE.search(p['name']) and 'unwinding' not in p['desc']]
+                if sr.get('status') == 'failed' and user_fail:
+                    r.update(status='failed', failed_props=sr.get('failed_props'), trace_inputs=sr.get('trace_inputs'), cbmc_tail=sr.get('cbmc_tail'),
+                             search={'unwind': ob.get('search_unwind', 6), 'failed_checks': sr.get('failed_props'), 'reason': 'the obligation timed out on this tree (unbounded loop?)'},
+                             search_done=True)
     known = load_known()
     violations = []
     known_hits = []
